@@ -69,6 +69,15 @@ fn core_digest() -> u64 {
             if *dm * base > 0.0 { d.g(a.invert_circle(&b, base)); }
         }
     }
+    // large magnitudes a few ulps apart on exactly opposite angles (a relative cancellation tolerance would show here)
+    for base in [2.6e5f64, 3.0e5, 1.0e8, 123456789.0] {
+        for k in 1u64..=7 {
+            let hi = f64::from_bits(base.to_bits() + k);
+            let a = Geonum::new_with_blade(hi, 1, 1.0, 6.0);
+            let b = Geonum::new_with_blade(base, 3, 1.0, 6.0);
+            d.g(a + b); d.g(b + a); d.g(&a - &b.negate()); d.g(a.reject(&b)); d.g(a.distance_to(&b));
+        }
+    }
     let c = GeoCollection::from(s.clone());
     d.f(c.total_magnitude());
     if let Some(g) = c.dominant() { d.g(*g); }
